@@ -49,7 +49,35 @@ let run_dec (c : case) : string =
     else "" in
   String.concat " " [spec; a; p] ^ slow
 
+(* ---- block compressors ---- *)
+let run_cmp (c : case) : string =
+  let src = get_bytes c "src" in
+  let dstlen = z_of_int (get_int c "dstlen") in
+  let k = get_int c "stale" in
+  let stale h = z_of_int (((int_of_z h) * (2 * k + 1) + 12345) land 65535) in
+  let r = (if get c "algo" = "fast" then compress_fast_list src stale dstlen
+           else compress_hc_list src (z_of_int (get_int c "depth")) dstlen) in
+  let m = (match r with
+    | CPanic -> "res=panic" | CHang -> "res=hang" | CErr -> "res=err" | CZero -> "res=zero"
+    | COk b -> Printf.sprintf "res=ok n=%d block=%s" (List.length b) (hex_of_bytes b)) in
+  (* independent validation of the IMPLEMENTATION's block: strict format and meaning *)
+  let ib = get_bytes c "iblock" in
+  let o = if ib = [] then "" else begin
+    let strict_v = (match parse_block (nat_of_int (List.length ib + 1)) ib [] with
+      | None -> "fail:not-a-block-ending-in-literals"
+      | Some p -> if strict p then "ok" else "fail:strict-rules") in
+    let dec_v = (match spec_decode_x ib [] (z_of_int (List.length src)) with
+      | Some out when out = src -> "ok"
+      | Some _ -> "fail:spec-decodes-to-other-bytes"
+      | None -> "fail:spec-rejects") in
+    Printf.sprintf " oracle_strict=%s oracle_specdec=%s" strict_v dec_v end in
+  m ^ o
+
 let dispatch (c : case) : string =
+  if c.kind = "ws" then Frames.run_ws c else
+  if c.kind = "rs" then Frames.run_rs c else
+  if c.kind = "cr" then Frames.run_cr c else
+  if c.kind = "cmp" then run_cmp c else
   if c.kind = "dec" then run_dec c else
   if String.length c.kind >= 3 && String.sub c.kind 0 3 = "xxh" then run_xxh c
   else failwith ("unknown kind " ^ c.kind)
